@@ -339,4 +339,15 @@ def r7_key_agreement(ctx):
         r.check(not any(bb in f.reach for bb, e in somes), "get_coin/empty=>none", "empty bytes ⇒ None", "empty bytes can give Some")
 
 
-RULES = [r1_rejection_noop, r2_input_resolution, r3_double_spend, r4_output_construction, r5_effects, r6_wellformed, r7_key_agreement]
+def shared(ctx):
+    """the per-transaction acceptance conditions named by the property: balanced (C01), authorised (C04), unlocked (C13), fee-paying (C05); order (C03)"""
+    from rules.engine import core
+    from rules.props import c01, c03, c04, c05, c13
+    core.import_rules(ctx, [c01.r1_gate_coverage, c01.r3_equality], "X01")
+    core.import_rules(ctx, [c03.r2_batch_commutativity], "X03")
+    core.import_rules(ctx, [c04.r1_no_bypass, c04.r2_verdict], "X04")
+    core.import_rules(ctx, [c05.r1_fee_gate], "X05")
+    core.import_rules(ctx, [c13.r3_lock_gate], "X13")
+
+
+RULES = [r1_rejection_noop, r2_input_resolution, r3_double_spend, r4_output_construction, r5_effects, r6_wellformed, r7_key_agreement, shared]
